@@ -336,7 +336,7 @@ inductive AOp where
   | update (k : Nat) (lt' : Nat → Nat → Bool)   -- the priority of `k` changed (new comparator `lt'`), then `update(k)`
   | build (ks : Array Nat)
   | reprio (lt' : Nat → Nat → Bool)             -- arbitrary priority changes, then `update_all()`
-  | clear | contains (k : Nat)
+  | clear | contains (k : Nat) | reserve (n : Nat)
 
 structure AState where
   lt : Nat → Nat → Bool
@@ -358,6 +358,7 @@ def AState.step (d : Nat) (hd : 0 < d) (s : AState) : AOp → Option (AState × 
   | .reprio lt' => (s.ah.updateAll lt' d hd).map fun a => ({ lt := lt', ah := a }, .none)
   | .clear => some ({ s with ah := s.ah.clear }, .none)
   | .contains k => some (s, .bool (s.ah.contains k))
+  | .reserve n => some ({ s with ah := s.ah.reserve n }, .none)
 
 /-- documented preconditions, judged on the reference key set -/
 def AOp.pre (lt : Nat → Nat → Bool) (ref : List Nat) : AOp → Prop
@@ -369,6 +370,7 @@ def AOp.pre (lt : Nat → Nat → Bool) (ref : List Nat) : AOp → Prop
   | .reprio lt' => WeakOrd lt'
   | .clear => True
   | .contains _ => True
+  | .reserve _ => True
 
 /-- the reference key set -/
 def arefStep (ref : List Nat) : AOp → AOut → List Nat
@@ -381,6 +383,7 @@ def arefStep (ref : List Nat) : AOp → AOut → List Nat
   | .reprio _, _ => ref
   | .clear, _ => []
   | .contains _, _ => ref
+  | .reserve _, _ => ref
 
 def AInvS (d : Nat) (s : AState) (ref : List Nat) : Prop :=
   WeakOrd s.lt ∧ AOk s.ah ∧ HeapA s.lt d s.ah.heap ∧ s.ah.heap.toList.Perm ref
@@ -496,6 +499,11 @@ theorem addr_step (d : Nat) (hd : 0 < d) (s : AState) (ref : List Nat) (op : AOp
   | clear =>
     refine ⟨{ s with ah := s.ah.clear }, .none, rfl, ⟨wo, aclear_spec s.ah, ?_, by simp [AH.clear, arefStep]⟩, by simp, by simp⟩
     intro i hi; simp [AH.clear] at hi
+  | reserve n =>
+    obtain ⟨r1, r2⟩ := areserve_spec s.ah hok n
+    exact ⟨{ s with ah := s.ah.reserve n }, .none, rfl,
+      ⟨wo, r1, by show HeapA s.lt d (s.ah.reserve n).heap; rw [r2]; exact hheap,
+       by show (s.ah.reserve n).heap.toList.Perm ref; rw [r2]; exact hperm⟩, by simp, by simp⟩
   | contains k =>
     refine ⟨s, .bool (s.ah.contains k), rfl, ⟨wo, hok, hheap, hperm⟩, ?_, by simp⟩
     intro k' hk'
